@@ -330,6 +330,7 @@ def main():
                 f.close()
                 continue
             before = snap(f)
+            sess_before = (f.auto_update_timestamps, f.mode)       # the session's own switches are state, too
             nixio.util.util.now_int = lambda: 2000000000          # a refused call must not touch timestamps either
             try:
                 bad(c)
@@ -339,6 +340,12 @@ def main():
                 rec["exception"] = type(exc).__name__
             after = snap(f)
             rec["changed"] = diff(before, after)
+            try:
+                if rec["outcome"] == "refused" and (f.auto_update_timestamps, f.mode) != sess_before:
+                    rec["changed"] = list(rec["changed"]) + ["~session switches (auto_update_timestamps, mode): %r -> %r"
+                                                             % (sess_before, (f.auto_update_timestamps, f.mode))]
+            except Exception as exc:
+                rec["changed"] = list(rec["changed"]) + ["~session switches unreadable: " + type(exc).__name__]
             if retry is not None and rec["outcome"] == "refused":
                 try:
                     retry(c)
